@@ -41,6 +41,24 @@ def main():
             print("%s %s %s in %.0fs %s" % (cid, tier, status, time.time() - t0, "; ".join(k.replace("unlisted violation ", "") for k in keys[:3])))
             if status.startswith("error"):
                 print(c.stderr[-800:])
+            # every reported violation must be a replayable artefact: reproduced on the changed tree, silent on /repo
+            files = [l.split("replay=", 1)[1].strip() for l in viol]
+            rep = sil = 0
+            bad = []
+            for f in files[:6]:
+                r1 = subprocess.run(["/verif/check", "--replay", f], cwd="/verif", env=env, capture_output=True, text=True)
+                env0 = {k: v for k, v in env.items() if k != "GRAPHIQ_ROOT"}
+                r0 = subprocess.run(["/verif/check", "--replay", f], cwd="/verif", env=env0, capture_output=True, text=True)
+                ok1 = r1.returncode == 1 and "REPRODUCED key=" in r1.stdout
+                ok0 = r0.returncode == 0 and "NOT REPRODUCED" in r0.stdout
+                rep += ok1; sil += ok0
+                if not (ok1 and ok0):
+                    bad.append((os.path.basename(f), r1.returncode, (r1.stdout + r1.stderr).strip().splitlines()[-1:][0][:160] if (r1.stdout + r1.stderr).strip() else "",
+                                r0.returncode, (r0.stdout + r0.stderr).strip().splitlines()[-1:][0][:160] if (r0.stdout + r0.stderr).strip() else ""))
+            if files:
+                print("%s replays: %d/%d reproduced on the changed tree, %d/%d silent on /repo" % (cid, rep, min(len(files), 6), sil, min(len(files), 6)))
+                for b in bad:
+                    print("   REPLAY-PROBLEM", b)
     finally:
         subprocess.call(["git", "-C", "/repo", "worktree", "remove", "--force", wt])
         shutil.rmtree(scratch, ignore_errors=True)
